@@ -292,7 +292,9 @@ def evaluate(ctx):
         if ctx.tier == "thorough":
             import miri
             miri.evaluate(ctx, out)
-            cov["rule"] += "; thorough: a reduced corpus (regression, small-scope and general families, every kind of operation) is also run under Miri"
+            import release
+            release.evaluate(ctx, out)
+            cov["rule"] += "; thorough: a reduced corpus (regression, small-scope and general families, every kind of operation) is also run under Miri, and a larger one built with the release profile"
         cov["rule"] += "; for C02 a result counts as a failure when the process aborts (ub_checks / debug assertions are on) or a yielded discriminant is not a declared one"
         cov["samples"] = sample_ops(ctx, ALL_BEHAV)
     elif pid in ("C09", "C18"):
